@@ -99,7 +99,11 @@ def bulk_create(ctx, what: str) -> None:
     env = zenv.ZEnv()
     try:
         kinds = ["-", "o", "o P1", "x", "~ P2", "<", ">"]
-        pages = {"inbox.zo": "# Inbox +pj_in\n\n" + "".join(f"{kinds[i % 7]} item {i} of the inbox k::v{i}\n" for i in range(n1)),
+        # (irregular gaps after the prefix; after two or more spaces a word like P1 is body text, not a priority)
+        gaps = ["", "", "", " ", "  "]
+        firsts = ["item", "item", "P1", "item", "P7", "item", "P0"]
+        pages = {"inbox.zo": "# Inbox +pj_in\n\n" + "".join(
+                     f"{kinds[i % 7]} {gaps[i % 5]}{firsts[i % 7] if gaps[i % 5] else 'item'} {i} of the inbox k::v{i}\n" for i in range(n1)),
                  "sub/bulk.zo": "# Bulk #ar_b\n\n" + "".join(
                      f"{kinds[i % 7]} bulk {i}\n" + ("  * detail of " + str(i) + "\n" if i % 5 == 0 else "") for i in range(n2)),
                  "dated.zo": "# Dated\n\n" + "".join(f"- 2024-05-0{1 + i % 3} dated {i} +t{i}\n" for i in range(n3))}
@@ -118,7 +122,7 @@ def bulk_create(ctx, what: str) -> None:
                 ctx.violation(f"{what}: {f} has {len(al)} lines after `db create`, {len(bl)} before", {"file": f, "after": after[f][:2000]})
                 return
             for i, (b, a) in enumerate(zip(bl, al)):
-                m = re.match(r"^([-ox~<>](?: P\d)? )(?:(\d{4}-\d\d-\d\d) )?(.*)$", b)
+                m = re.match(r"^([-ox~<>](?: P\d)? +)(?:(\d{4}-\d\d-\d\d) )?(\S.*)$", b)    # prefix incl. any extra spaces
                 if not m or b.startswith("  "):
                     if a != b:
                         ctx.violation(f"{what}: line {i + 1} of {f} is not an item and changed: {b!r} -> {a!r}", {"file": f})
